@@ -22,7 +22,7 @@ PROPERTY = "C18"
 LEVEL = "exploration"
 RULE = ("cases = (1) every sequence of 1..K tokens (K=4 quick, 5 thorough) over 10 column tokens x {no date format, %Y-%m-%d, '%d %b %y'} x "
         "{no template, {a}, {a} {b}, {c}} x 4 spellings (plain, blanks around commas, upper-case names, {_}<->{*}); (2) every header row of "
-        "1..K cells (K=4 quick, 5 thorough) over 18 header texts (plus the 5-column family: 3 mapped columns and every ordered pair of further headers in 3 arrangements) x 5 date styles in the data rows (all 5 for rows narrower than K, the default style for K-cell rows) fed to the real `tally inspect`. non-trivial = arrangement that the reference "
+        "1..K cells (K=4 quick, 5 thorough - the 5-cell rows over the first 12 header texts) over 18 header texts (plus the 5-column family: 3 mapped columns and every ordered pair of further headers in 3 arrangements) x 5 date styles in the data rows (all 5 for rows narrower than K, the default style for K-cell rows) fed to the real `tally inspect`. non-trivial = arrangement that the reference "
         "accepts, or rejects for a reason other than a missing required field; header rows for which inspect prints a suggestion; all distinct by construction")
 ASSUMPTIONS = ["arrangements with a {description} column AND a template whose columns are all captured are not judged (the property does not say)",
                "date formats containing a comma are outside the alphabet", "inspect is run in-process with stdout captured"]
@@ -47,7 +47,9 @@ def gen_cases(tier):
         for seq in itertools.product(range(len(TOKENS)), repeat=n):
             yield {"part": "parser", "tokens": list(seq)}
     for n in range(1, k + 1):
-        for seq in itertools.product(range(len(HEADERS)), repeat=n):
+        # rows of 5 cells (thorough) are enumerated over the first 12 header texts; shorter rows over all of them
+        hs = range(len(HEADERS)) if n < 5 else range(12)
+        for seq in itertools.product(hs, repeat=n):
             # every date style for rows of < K cells, the default style for the widest rows
             for ds in (range(len(DATESTYLES)) if n < k else (0,)):
                 yield {"part": "inspect", "headers": list(seq), "datestyle": ds}
